@@ -266,7 +266,8 @@ def run_sequence(rec, case):
         rec.viol(key, msg + ' | SEQUENCE server=%s compression=%r '
                  'threshold=%d cookie=%r responses so far=%r' % (
                      srv, comp, thr, cookie, steps), case)
-    sim = scen.make_sim(srv, server_kwargs={
+    sim = scen.make_sim(srv, real_ws_driver=bool(case.get('tws')),
+                        server_kwargs={
         'http_compression': comp, 'compression_threshold': thr,
         'cookie': cookie})
     try:
@@ -367,6 +368,8 @@ def run_shard(spec):
         c['aio'] = 'H'
     for c in cases[2::4]:
         c['aio'] = 'N'     # ... and behind the tornado adapter
+    for c in cases[1::3]:
+        c['tws'] = True    # threaded server: the real simple_websocket driver
     # one in six cases is a sequence of responses from one server instance
     cases += [{'seed': spec['seed'], 'i': spec['shard'] * 1000000 + k,
                'seq': True} for k in range(spec['n'] // 6)]
